@@ -129,7 +129,10 @@ class LockModel:
         return ids, why
 
     def _find_ops(self):
+        skip = getattr(self.crate, "lock_param_helpers", set())
         for f in self.crate.real_fns():
+            if f.id in skip:
+                continue  # handed its lock as a parameter; its operations are accounted for in every caller (inlined there)
             for bb, c in f.calls():
                 k = classify_call(c)
                 if k is None:
